@@ -81,6 +81,20 @@ func c16(r *Report) {
 				}
 				r.Sites++
 				r.Decide("flow", key, decoded || dech, map[bool]string{true: "BodyReader(Decode())", false: "httputil.NewChunkedReader on the chunked edge feeds every consumer"}[decoded], "the snapshot body (which keeps chunk framing) is parsed as if it were the plain body: chunk sizes end up in the HAR entry", c.Pos())
+				// post data is the request body as the origin receives it: the transfer
+				// coding is removed, a Content-Encoding is not; response content is the
+				// fully decoded body
+				isReq := false
+				for _, sc := range calls(f, "(*M/messageview.MessageView).SnapshotRequest") {
+					if sc.Common().Args[0] == c.Call.Args[0] {
+						isReq = true
+					}
+				}
+				if isReq {
+					r.Decide("flow", fmt.Sprintf("%s: request post data keeps its content encoding", fnName(f)), !decoded, "the request body is de-chunked only", "the request body is read with Decode(): a compressed upload is logged decompressed (or not at all when it does not decompress) instead of as the bytes the origin receives", c.Pos())
+				} else {
+					r.Decide("flow", fmt.Sprintf("%s: response content is the decoded body", fnName(f)), decoded, "BodyReader(Decode())", "the response body is logged without removing its content encoding", c.Pos())
+				}
 			}
 		}
 		// the content decoders are used whole: a gzip body may consist of several
